@@ -73,6 +73,13 @@ var hand = []string{
 	"i = 0\ni++\nr = &i\n*r = 77\n[i, 0 + 1]",
 	"z = 1 - 2\nw = &z\n*w = 9\n[z, 1 - 2, 0 - 1]",
 	"k = 4094 + 1\nu = &k\n*u = 3\n[k, 4094 + 1, 4096 - 1]",
+	// nested constant literals: every evaluation must build fresh inner containers
+	"t = [[0, 0], [0, 0]]\nt[1][0] = t[1][0] + 1\nt",
+	"m = {\"a\": {\"b\": 1}}\nm.a.b = m.a.b + 1\nm.a.b",
+	"l = [{\"k\": 0}, {\"k\": 0}]\nl[0].k = l[0].k + 5\n[l[0].k, l[1].k]",
+	"tt = [][]int64{[]int64{0, 0}, []int64{0, 0}}\ntt[0][1] = tt[0][1] + 3\ntt",
+	"func fresh() { return [[1], [2]] }\na = fresh()\na[0][0] = 9\nb = fresh()\n[a[0][0], b[0][0]]",
+	"s = [\"x\", [\"y\"]]\ns[1][0] = s[1][0] + \"z\"\ns",
 	// struct values of one type made twice: container fields must be distinct objects
 	"a = make(struct { M map[string]int64, N int64 })\nb = make(struct { M map[string]int64, N int64 })\na.M[\"x\"] = 1\nb.M[\"y\"] = 2\n[len(a.M), len(b.M)]",
 	// import hands out a copy of the package table
@@ -554,7 +561,7 @@ func coverage(c *common.Ctx, r *common.Result) map[string]interface{} {
 		"schedules":                     r.Counts["schedules"],
 		"interleaved_programs":          r.Counts["interleaved_programs"],
 		"tree_dump_checks":              r.Counts["dump_checks"],
-		"rule": "corpus = 32 handcrafted programs aimed at the runtime data living next to the syntax (CallExpr.Func, literal values, the shared 1 of ++/--, cached small integers, nil/true/false reached through pointers, import tables) + the C08 control-flow corpus (depth<=2 quick / <=3 thorough) + the C09 try/defer corpus (depth<=1 / <=2); " +
+		"rule": "corpus = 38 handcrafted programs aimed at the runtime data living next to the syntax (CallExpr.Func, literal values, the shared 1 of ++/--, cached small integers, nil/true/false reached through pointers, import tables) + the C08 control-flow corpus (depth<=2 quick / <=3 thorough) + the C09 try/defer corpus (depth<=1 / <=2); " +
 			"sequential: each tree is parsed once, dumped by reflection (all fields, literal values, positions) and run 3 times on equal fresh environments, the dump is compared at every context poll and after every run, run k must equal run 1 (value, error status, probe trace), then a canary program on a fresh environment must still see pristine nil/true/false/small integers and package tables; " +
 			"interleaved: 2 (and 3) runs of one shared tree on separate environments as scheduler threads, every context poll a schedule point, all interleavings within preemption bound 2 (quick) / 3 (thorough), every run must equal the solo run; non-trivial = produced a probe trace or a non-nil value; states = programs, transitions = scheduler steps + dump comparisons",
 	}
